@@ -6,6 +6,7 @@ pickled, printed and replayed.  Containers are ('T', i) = children of task i, ('
 """
 import itertools
 
+from . import core
 from .core import A, ABSENT_ID
 
 SKIP = None  # effect undefined by the documentation: C16 makes no claim
@@ -181,6 +182,8 @@ def alphabet(U):
 def describe(op, U=None):
     """Readable Python-like rendering for replay files."""
     f = op[0]
+    if f == 'read':
+        return 'read every public getter (parent, children, links, wbs, all_parents, all_children, W.roots, W.tasks, W[id])'
 
     def t(i):
         return 'None' if i is None else 't%d' % i
@@ -295,6 +298,9 @@ def apply(U, op, facade=None):
     T = U.tasks
     f = op[0]
     r = U._r
+    if f == 'read':
+        core.read_all(U)
+        return None
     if f == 'parent':
         T[op[1]].parent = None if op[2] is None else T[op[2]]
         return None
@@ -590,6 +596,8 @@ def _sort_key(U, key):
 def effect(U, a: A, op):
     """Returns (list of admissible abstract post-states | SKIP, expected return | None)."""
     f = op[0]
+    if f == 'read':
+        return [a.copy()], None
     if f == 'parent':
         return _parent_effect(a, op[1], op[2]), None
     if f == 'list=iter':
@@ -784,6 +792,8 @@ def _linked(a: A, y, targets):
 
 def argrel(U, a: A, op):
     f = op[0]
+    if f == 'read':
+        return '-'
     flags = set()
     subj_task = None
     cont = None
